@@ -89,6 +89,9 @@ struct Model
     v.acc = R.acc * (p.Del / T) * (p.Del / T);
     LD vm = 0;
     for (const auto & c : p.V) vm = std::max(vm, maxabs<LD>(MatL(c)));
+    // control increments below 1e-6 count as 1e-6: an increment obtained as log(ga^-1 gb) carries the absolute rounding
+    // error 1e-16 of the product, i.e. 2e-9 relative for an increment of 5e-9
+    vm       = std::max<LD>(vm, 1e-6L);
     v.vscale = K * vm * (p.Del / T);
     v.ascale = K * std::max(1, K - 1) * vm * (1 + vm) * (p.Del / T) * (p.Del / T);
     return v;
